@@ -223,6 +223,15 @@ def amounts(thorough):
 def run_shard(shard):
     import pendulum
     acc = core.Acc(ID)
+    if shard.get("kind") == "chains":
+        from .. import chain
+        for sd in shard["seeds"]:
+            chain.explore(acc, pendulum, sd["z"], sd["inst"], sd["zones"], shard["depth"], {'cal'})
+            acc.c["nontrivial"] += 1
+        acc.sample({"chain_seed": [shard["seeds"][0]["z"], obs.iso(shard["seeds"][0]["inst"])], "depth": shard["depth"],
+                    "zones": [str(z) for z in shard["seeds"][0]["zones"]],
+                    "ops": "in_timezone x zones, add/subtract hours/minutes/seconds, +/- timedelta, add days/weeks/months"})
+        return acc.result()
     A = amounts(shard["thorough"])
     k = shard["kind"]
     if k == "calendar":
@@ -265,6 +274,10 @@ def run_shard(shard):
 
 def replay_case(case, acc):
     import pendulum
+    if case.get("kind") == "chain":
+        from .. import chain
+        chain.replay(acc, pendulum, case, {'cal'})
+        return
     if case["kind"] == "dt":
         check_dt(acc, pendulum, case["z"], tuple(case["f"]), case["kw"], durations=True, fold=case.get("fold", 1))
     else:
@@ -279,6 +292,9 @@ def plan(tier, seed):
     wz = [z for z in seeds.witness_zones(seed, 3) if z != "UTC"]
     shards += [{"kind": "dst-target", "zones": [z], "limit": 0 if thorough else 6, "seed": seed,
                 "thorough": thorough} for z in wz]
+    from .. import chain
+    cs = chain.chain_seeds(seed, 3 if not thorough else 8)
+    shards += [{"kind": "chains", "seeds": ch, "depth": 3, "thorough": thorough} for ch in seeds.chunks(cs, 32)]
     return [({"ext": 1, "tz": "sys"}, shards)] + ([({"ext": 0, "tz": "pkg"}, shards)] if thorough else [])
 
 
